@@ -144,17 +144,17 @@ package policy
 //@ # satisfied(v, acc): acc holds at least threshold principals, all trusted by v
 //@ define trustedOnly(v *SignatureVerifier, acc *set.Set[string]) bool = forall k string :: setHas(acc, k) ==> trustedID(v, k)
 
-//@ func [C01,C11,C19] verifyGitObjectAndAttestationsUsingVerifiers -> (name, acc, rslNeeded, err)
+//@ func [C11] verifyGitObjectAndAttestationsUsingVerifiers -> (name, acc, rslNeeded, err)
 //@   requires okVerifiers(verifiers)
 //@   assigns ghost faults, fresh(set.Set[string].contents), fresh(map map[string]struct{}), fresh(elems gitobject.Option), fresh(elems sslibdsse.Verifier), fresh(elems sigstoreverifieropts.Option), fresh(elems string)
 //@   ensures noVerifiers: len(verifiers) == 0 ==> err == ErrNoVerifiers
 //@   ensures failureReturnsNothing: err != nil ==> name == "" && acc == nil && !rslNeeded
-//@   ensures byOneOfTheVerifiers: err == nil ==> name != "" && acc != nil && (exists i :: 0 <= i && i < len(verifiers) && verifiers[i].name == name)
-//@   ensures relaxationOnlyWhenMergeable: rslNeeded ==> verifyMergeable
+//@   ensures [C01,C11] byOneOfTheVerifiers: err == nil ==> name != "" && acc != nil && (exists i :: 0 <= i && i < len(verifiers) && verifiers[i].name == name)
+//@   ensures [C11,C19] relaxationOnlyWhenMergeable: rslNeeded ==> verifyMergeable
 //@   # C19: "signature needed" means exactly one short of a threshold above one
-//@   ensures oneShort: err == nil && rslNeeded ==> (exists i :: 0 <= i && i < len(verifiers) && verifiers[i].name == name && verifiers[i].threshold > 1 && setLen(acc) >= verifiers[i].threshold - 1 && setLen(acc) < verifiers[i].threshold && trustedOnly(verifiers[i], acc))
+//@   ensures [C11,C19] oneShort: err == nil && rslNeeded ==> (exists i :: 0 <= i && i < len(verifiers) && verifiers[i].name == name && verifiers[i].threshold > 1 && setLen(acc) >= verifiers[i].threshold - 1 && setLen(acc) < verifiers[i].threshold && trustedOnly(verifiers[i], acc))
 //@   # C01/C11: otherwise the rule that answered has at least threshold distinct trusted principals behind it
-//@   ensures thresholdMet: err == nil && !rslNeeded ==> (exists i :: 0 <= i && i < len(verifiers) && verifiers[i].name == name && (verifiers[i].verifyExhaustively || (verifiers[i].threshold >= 1 && setLen(acc) >= verifiers[i].threshold)))
+//@   ensures [C01,C11] thresholdMet: err == nil && !rslNeeded ==> (exists i :: 0 <= i && i < len(verifiers) && verifiers[i].name == name && (verifiers[i].verifyExhaustively || (verifiers[i].threshold >= 1 && setLen(acc) >= verifiers[i].threshold)))
 //@   # C11 (D1): a verifier that accepts without counting must not be what authorizes the change
 //@   ensures [C01,C11] notByExhaustiveVerifier: err == nil && !rslNeeded ==> (exists i :: 0 <= i && i < len(verifiers) && verifiers[i].name == name && verifiers[i].threshold >= 1 && setLen(acc) >= verifiers[i].threshold)
 //@   loop 1:
@@ -209,7 +209,7 @@ package policy
 //@ # taken for a verifier that earned it for the SAME object)
 //@ spec verifiedBy(policy *State, name string, gitID Hash) bool
 //@ define mergeableAsked(opts []verifyGitObjectAndAttestationsOption) bool = exists i :: 0 <= i && i < len(opts) && isOpt(opts[i], "withVerifyMergeable")
-//@ func [C11,C05,C08,C01,C19] verifyGitObjectAndAttestations -> (name, rslNeeded, err)
+//@ func [C11] verifyGitObjectAndAttestations -> (name, rslNeeded, err)
 //@   requires policy != nil && policy.repository != nil
 //@   requires noNilRules: forall(c, string, forall(j, has(policy.globalRules, c) && 0 <= j && j < len(policy.globalRules[c]) ==> notNil(policy.globalRules[c][j])))
 //@   requires noNilApps: forall(a, string, has(policy.GitHubApps, a) ==> notNil(policy.GitHubApps[a]))
@@ -237,10 +237,10 @@ package policy
 //@   loop 4:
 //@     cut
 //@   loop 5:
-//@     invariant visitedOK: forall c string :: visited(c) ==> rulesOK(policy.globalRules[c], len(policy.globalRules[c]), target, verifiedPrincipalIDs, rslSignatureNeededForThreshold && options.verifyMergeable)
+//@     invariant [C11,C19] visitedOK: forall c string :: visited(c) ==> rulesOK(policy.globalRules[c], len(policy.globalRules[c]), target, verifiedPrincipalIDs, rslSignatureNeededForThreshold && options.verifyMergeable)
 //@   loop 6:
-//@     invariant visitedOK: forall c string :: visited(c) && c != controllerName ==> rulesOK(policy.globalRules[c], len(policy.globalRules[c]), target, verifiedPrincipalIDs, rslSignatureNeededForThreshold && options.verifyMergeable)
-//@     invariant soFar: rulesOK(globalRules, rangeindex + 1, target, verifiedPrincipalIDs, rslSignatureNeededForThreshold && options.verifyMergeable) && globalRules == policy.globalRules[controllerName]
+//@     invariant [C11,C19] visitedOK: forall c string :: visited(c) && c != controllerName ==> rulesOK(policy.globalRules[c], len(policy.globalRules[c]), target, verifiedPrincipalIDs, rslSignatureNeededForThreshold && options.verifyMergeable)
+//@     invariant [C11,C19] soFar: rulesOK(globalRules, rangeindex + 1, target, verifiedPrincipalIDs, rslSignatureNeededForThreshold && options.verifyMergeable) && globalRules == policy.globalRules[controllerName]
 
 //@ # ---- C02: a policy state takes effect only via an unbroken, rollback-free chain of trust ----
 //@ # Decoding an envelope is a function of the envelope (JSON decoding assumed deterministic; the decoded object is
@@ -466,13 +466,13 @@ package policy
 //@   assigns ghost faults, fresh(attestations.Attestations.*)
 //@   ensures err == nil ==> a != nil && attsEntry(a) == entry.GetID()
 
-//@ func [C01,C09] getApproverAttestationAndKeyIDsForIndex -> (att, approvers, err)
+//@ func [C09] getApproverAttestationAndKeyIDsForIndex -> (att, approvers, err)
 //@   requires policy != nil && policy.repository != nil && repo != nil
 //@   requires noNilApps: forall(a, string, has(policy.GitHubApps, a) ==> notNil(policy.GitHubApps[a]))
 //@   assigns ghost faults, fresh(SignatureVerifier.*), fresh(set.Set[string].contents), fresh(map map[string]struct{}), fresh(elems gitobject.Option), fresh(elems sslibdsse.Verifier), fresh(elems sigstoreverifieropts.Option), fresh(elems tuf.Principal), fresh(elems string)
 //@   ensures noAttestations: attestationsState == nil ==> att == nil && approvers == nil && err == nil
 //@   # the authorization used is one whose signed statement names exactly (reference, from, to)
-//@   ensures authNamesExactChange: err == nil && att != nil ==> authNamesChange(att, targetRef, fromID.String(), toID.String())
+//@   ensures [C01,C09] authNamesExactChange: err == nil && att != nil ==> authNamesChange(att, targetRef, fromID.String(), toID.String())
 //@   ensures tagsHaveNoCodeReview: err == nil && isTag && attestationsState != nil ==> approvers != nil && setLen(approvers) == 0
 //@   # A-json: an approval statement signed by the trusted app decodes to a predicate with an approver list
 //@   assumeafter encoding/json.Unmarshal :: decodedApproval: stmt.Predicate != nil && stmt.Predicate.Approvers != nil
@@ -486,14 +486,14 @@ package policy
 //@   loop 3:
 //@     invariant set: approverIdentities != nil && fresh(approverIdentities) && approverIdentities.contents != nil && fresh(approverIdentities.contents) && !isTag
 
-//@ func [C01,C09] getApproverAttestationAndKeyIDs -> (att, approvers, err)
+//@ func [C09] getApproverAttestationAndKeyIDs -> (att, approvers, err)
 //@   requires entry != nil && policy != nil && policy.repository != nil && repo != nil
 //@   requires noNilApps: forall(a, string, has(policy.GitHubApps, a) ==> notNil(policy.GitHubApps[a]))
 //@   assigns ghost faults, fresh(SignatureVerifier.*), fresh(set.Set[string].contents), fresh(map map[string]struct{}), fresh(elems gitobject.Option), fresh(elems sslibdsse.Verifier), fresh(elems sigstoreverifieropts.Option), fresh(elems tuf.Principal), fresh(elems string), fresh(rsl.ReferenceEntry.*), fresh(rsl.AnnotationEntry.*), fresh(rsl.PropagationEntry.*), fresh(elems Hash), fresh(elems *rsl.AnnotationEntry), fresh(elems rsl.GetLatestReferenceUpdaterEntryOption), fresh(rsl.GetLatestReferenceUpdaterEntryOptions.*)
 //@   ensures noAttestations: attestationsState == nil ==> att == nil && approvers == nil && err == nil
 //@   # the authorization counted for an entry names that entry's reference and exactly the state the entry records:
 //@   # the tree of its commit, or for a tag the object the tag points to
-//@   ensures authNamesEntryChange: err == nil && att != nil ==> (exists from string :: authNamesChange(att, entry.RefName, from, hexstr(ite(strings.HasPrefix(entry.RefName, gitinterface.TagRefPrefix), tagTarget(entry.TargetID), ctree(entry.TargetID)))))
+//@   ensures [C01,C09] authNamesEntryChange: err == nil && att != nil ==> (exists from string :: authNamesChange(att, entry.RefName, from, hexstr(ite(strings.HasPrefix(entry.RefName, gitinterface.TagRefPrefix), tagTarget(entry.TargetID), ctree(entry.TargetID)))))
 
 //@ # pathsAccepted(policy, c): every path commit c changes was accepted, verbatim, for c in normal mode
 //@ define pathsAccepted(policy *State, c Hash) bool = forall q :: 0 <= q && q < cpLen(c) ==> acceptedNormally(policy, fileTarget(cpAt(c, q)), c)
@@ -504,7 +504,7 @@ package policy
 //@   # all commits the entry introduces: everything reachable from its target but not from some earlier recorded state
 //@   ensures introduced: err == nil ==> (exists o Hash :: introducedFrom(cs, entry.TargetID, o))
 
-//@ func [C01,C09,C10] verifyEntry -> (err)
+//@ func [C01] verifyEntry -> (err)
 //@   requires entry != nil && policy != nil && policy.repository != nil && repo != nil
 //@   requires noNilRules: forall(c, string, forall(j, has(policy.globalRules, c) && 0 <= j && j < len(policy.globalRules[c]) ==> notNil(policy.globalRules[c][j])))
 //@   requires noNilApps: forall(a, string, has(policy.GitHubApps, a) ==> notNil(policy.GitHubApps[a]))
@@ -515,20 +515,20 @@ package policy
 //@   ensures namespaceDecided: err == nil && !isGittufManaged(entry.RefName) && !strings.HasPrefix(entry.RefName, gitinterface.TagRefPrefix) ==> (exists att *sslibdsse.Envelope :: decided(policy, gitTarget(entry.RefName), entry.ID, att, false, false))
 //@   # with file rules in force, every path changed by every commit the entry introduces was decided, verbatim, for
 //@   # that commit
-//@   ensures commitsAreIntroduced: err == nil && !isGittufManaged(entry.RefName) && !strings.HasPrefix(entry.RefName, gitinterface.TagRefPrefix) && policy.hasFileRule ==> (exists o Hash :: introducedFrom(commitIDs, entry.TargetID, o))
-//@   ensures everyChangedPathDecided: err == nil && !isGittufManaged(entry.RefName) && !strings.HasPrefix(entry.RefName, gitinterface.TagRefPrefix) && policy.hasFileRule ==> forall k :: 0 <= k && k < len(commitIDs) ==> pathsAccepted(policy, commitIDs[k])
+//@   ensures [C01,C10] commitsAreIntroduced: err == nil && !isGittufManaged(entry.RefName) && !strings.HasPrefix(entry.RefName, gitinterface.TagRefPrefix) && policy.hasFileRule ==> (exists o Hash :: introducedFrom(commitIDs, entry.TargetID, o))
+//@   ensures [C01,C10] everyChangedPathDecided: err == nil && !isGittufManaged(entry.RefName) && !strings.HasPrefix(entry.RefName, gitinterface.TagRefPrefix) && policy.hasFileRule ==> forall k :: 0 <= k && k < len(commitIDs) ==> pathsAccepted(policy, commitIDs[k])
 //@   loop 1:
-//@     invariant commitsDone: forall k :: 0 <= k && k <= rangeindex ==> pathsAccepted(policy, commitIDs[k])
+//@     invariant [C01,C10] commitsDone: forall k :: 0 <= k && k <= rangeindex ==> pathsAccepted(policy, commitIDs[k])
 //@     invariant shape: policy.hasFileRule
 //@   loop 2:
-//@     invariant pathsAre: len(paths) == cpLen(commitID) && (forall q :: 0 <= q && q < len(paths) ==> paths[q] == cpAt(commitID, q))
-//@     invariant pathsDone: forall q :: 0 <= q && q <= rangeindex ==> acceptedNormally(policy, fileTarget(cpAt(commitID, q)), commitID)
-//@     invariant shortcutEarned: verifiedUsing == "" || verifiedBy(policy, verifiedUsing, commitID)
+//@     invariant [C01,C10,C19] pathsAre: len(paths) == cpLen(commitID) && (forall q :: 0 <= q && q < len(paths) ==> paths[q] == cpAt(commitID, q))
+//@     invariant [C01,C10] pathsDone: forall q :: 0 <= q && q <= rangeindex ==> acceptedNormally(policy, fileTarget(cpAt(commitID, q)), commitID)
+//@     invariant [C01,C10] shortcutEarned: verifiedUsing == "" || verifiedBy(policy, verifiedUsing, commitID)
 
 //@ # ---- C01: the entry points choose the range and report the tip ----
 //@ # rangeVerified(first, last, ref): label "VerifyRelativeForRef accepted the log between these two entries for ref"
 //@ spec rangeVerified(first Hash, last Hash, ref string) bool
-//@ func [C01,C02,C07,C08] (*PolicyVerifier).VerifyRelativeForRef -> (err)
+//@ func [C07] (*PolicyVerifier).VerifyRelativeForRef -> (err)
 //@   uses ixshift
 //@   requires v != nil && v.repo != nil && notNil(v.searcher) && notNil(firstEntry) && notNil(lastEntry) && (v.persistentCacheEnabled ==> v.persistentCache != nil)
 //@   requires closedWorld: isUpdater(firstEntry) && isUpdater(lastEntry)
@@ -584,8 +584,8 @@ package policy
 //@   assumeafter GetLatestReferenceUpdaterEntry :: isNil(r0) || isUpdater(r0)
 //@   assumeafter GetFirstReferenceUpdaterEntryForRef :: isNil(r0) || isUpdater(r0)
 //@   assumeafter loadRSLReferenceUpdaterEntry :: isNil(r0) || isUpdater(r0)
-//@   requires v != nil && v.repo != nil
-//@   assigns ghost faults, ghost refTip, ghost refSet, ghost objSet, fresh(rsl.ReferenceEntry.*), fresh(rsl.AnnotationEntry.*), fresh(rsl.PropagationEntry.*), fresh(elems Hash), fresh(elems *rsl.AnnotationEntry), fresh(elems rsl.GetLatestReferenceUpdaterEntryOption), fresh(rsl.GetLatestReferenceUpdaterEntryOptions.*)
+//@   requires v != nil && v.repo != nil && notNil(v.searcher) && (v.persistentCacheEnabled ==> v.persistentCache != nil)
+//@   assigns ghost faults, ghost refTip, ghost refSet, ghost objSet, all(State.verifiersCache), all(cache.Persistent.PolicyEntries), all(cache.Persistent.AttestationEntries), all(cache.Persistent.AddedAttestationsBeforeNumber), all(cache.Persistent.LastVerifiedEntryForRef), fresh(elems cache.RSLEntryIndex), fresh(map map[string]cache.RSLEntryIndex), fresh(elems gitstore.TreeEntry), fresh(State.*), fresh(StateMetadata.*), fresh(policyopts.LoadStateOptions.*), fresh(attestations.Attestations.*), fresh(SignatureVerifier.*), fresh(elems *SignatureVerifier), fresh(elems tuf.Principal), fresh(elems tuf.Rule), fresh(map map[string][]*SignatureVerifier), fresh(map map[string]bool), fresh(map map[string]tuf.Principal), fresh(gitinterface.Repository.*), fresh(set.Set[string].contents), fresh(map map[string]struct{}), fresh(elems gitobject.Option), fresh(elems sslibdsse.Verifier), fresh(elems sigstoreverifieropts.Option), fresh(elems string), fresh(verifyGitObjectAndAttestationsOptions.*), fresh(rsl.ReferenceEntry.*), fresh(rsl.AnnotationEntry.*), fresh(rsl.PropagationEntry.*), fresh(elems Hash), fresh(elems *rsl.AnnotationEntry), fresh(elems rsl.GetLatestReferenceUpdaterEntryOption), fresh(rsl.GetLatestReferenceUpdaterEntryOptions.*), fresh(elems verifyGitObjectAndAttestationsOption), fresh(elems rsl.ReferenceUpdaterEntry), fresh(map map[string][]*rsl.AnnotationEntry), fresh(elems *rsl.ReferenceEntry)
 //@   # the tip reported is the target of the latest entry for the reference, and exactly that entry was verified
 //@   ensures tipIsLatestTarget: err == nil ==> old(refSet[rsl.Ref]) && old(hasRefEntry(refTip[rsl.Ref], target)) && tip == pTarget(cmsg(old(latestFor(target))))
 //@   ensures latestVerified: err == nil ==> rangeVerified(old(latestFor(target)), old(latestFor(target)), target)
@@ -595,8 +595,8 @@ package policy
 //@   assumeafter GetLatestReferenceUpdaterEntry :: isNil(r0) || isUpdater(r0)
 //@   assumeafter GetFirstReferenceUpdaterEntryForRef :: isNil(r0) || isUpdater(r0)
 //@   assumeafter loadRSLReferenceUpdaterEntry :: isNil(r0) || isUpdater(r0)
-//@   requires v != nil && v.repo != nil && (v.persistentCacheEnabled ==> v.persistentCache != nil)
-//@   assigns ghost faults, ghost refTip, ghost refSet, ghost objSet, fresh(rsl.ReferenceEntry.*), fresh(rsl.AnnotationEntry.*), fresh(rsl.PropagationEntry.*), fresh(elems Hash), fresh(elems *rsl.AnnotationEntry), fresh(elems rsl.GetLatestReferenceUpdaterEntryOption), fresh(rsl.GetLatestReferenceUpdaterEntryOptions.*)
+//@   requires v != nil && v.repo != nil && notNil(v.searcher) && (v.persistentCacheEnabled ==> v.persistentCache != nil)
+//@   assigns ghost faults, ghost refTip, ghost refSet, ghost objSet, all(State.verifiersCache), all(cache.Persistent.PolicyEntries), all(cache.Persistent.AttestationEntries), all(cache.Persistent.AddedAttestationsBeforeNumber), all(cache.Persistent.LastVerifiedEntryForRef), fresh(elems cache.RSLEntryIndex), fresh(map map[string]cache.RSLEntryIndex), fresh(elems gitstore.TreeEntry), fresh(State.*), fresh(StateMetadata.*), fresh(policyopts.LoadStateOptions.*), fresh(attestations.Attestations.*), fresh(SignatureVerifier.*), fresh(elems *SignatureVerifier), fresh(elems tuf.Principal), fresh(elems tuf.Rule), fresh(map map[string][]*SignatureVerifier), fresh(map map[string]bool), fresh(map map[string]tuf.Principal), fresh(gitinterface.Repository.*), fresh(set.Set[string].contents), fresh(map map[string]struct{}), fresh(elems gitobject.Option), fresh(elems sslibdsse.Verifier), fresh(elems sigstoreverifieropts.Option), fresh(elems string), fresh(verifyGitObjectAndAttestationsOptions.*), fresh(rsl.ReferenceEntry.*), fresh(rsl.AnnotationEntry.*), fresh(rsl.PropagationEntry.*), fresh(elems Hash), fresh(elems *rsl.AnnotationEntry), fresh(elems rsl.GetLatestReferenceUpdaterEntryOption), fresh(rsl.GetLatestReferenceUpdaterEntryOptions.*), fresh(elems verifyGitObjectAndAttestationsOption), fresh(elems rsl.ReferenceUpdaterEntry), fresh(map map[string][]*rsl.AnnotationEntry), fresh(elems *rsl.ReferenceEntry)
 //@   ensures tipIsLatestTarget: err == nil ==> old(refSet[rsl.Ref]) && old(hasRefEntry(refTip[rsl.Ref], target)) && tip == pTarget(cmsg(old(latestFor(target))))
 //@   # everything from the first entry for the reference (or, with the persistent cache, from the entry the cache
 //@   # records as last verified for it) up to the latest entry was verified
@@ -608,8 +608,8 @@ package policy
 //@   assumeafter GetLatestReferenceUpdaterEntry :: isNil(r0) || isUpdater(r0)
 //@   assumeafter GetFirstReferenceUpdaterEntryForRef :: isNil(r0) || isUpdater(r0)
 //@   assumeafter loadRSLReferenceUpdaterEntry :: isNil(r0) || isUpdater(r0)
-//@   requires v != nil && v.repo != nil
-//@   assigns ghost faults, ghost refTip, ghost refSet, ghost objSet, fresh(rsl.ReferenceEntry.*), fresh(rsl.AnnotationEntry.*), fresh(rsl.PropagationEntry.*), fresh(elems Hash), fresh(elems *rsl.AnnotationEntry), fresh(elems rsl.GetLatestReferenceUpdaterEntryOption), fresh(rsl.GetLatestReferenceUpdaterEntryOptions.*)
+//@   requires v != nil && v.repo != nil && notNil(v.searcher) && (v.persistentCacheEnabled ==> v.persistentCache != nil)
+//@   assigns ghost faults, ghost refTip, ghost refSet, ghost objSet, all(State.verifiersCache), all(cache.Persistent.PolicyEntries), all(cache.Persistent.AttestationEntries), all(cache.Persistent.AddedAttestationsBeforeNumber), all(cache.Persistent.LastVerifiedEntryForRef), fresh(elems cache.RSLEntryIndex), fresh(map map[string]cache.RSLEntryIndex), fresh(elems gitstore.TreeEntry), fresh(State.*), fresh(StateMetadata.*), fresh(policyopts.LoadStateOptions.*), fresh(attestations.Attestations.*), fresh(SignatureVerifier.*), fresh(elems *SignatureVerifier), fresh(elems tuf.Principal), fresh(elems tuf.Rule), fresh(map map[string][]*SignatureVerifier), fresh(map map[string]bool), fresh(map map[string]tuf.Principal), fresh(gitinterface.Repository.*), fresh(set.Set[string].contents), fresh(map map[string]struct{}), fresh(elems gitobject.Option), fresh(elems sslibdsse.Verifier), fresh(elems sigstoreverifieropts.Option), fresh(elems string), fresh(verifyGitObjectAndAttestationsOptions.*), fresh(rsl.ReferenceEntry.*), fresh(rsl.AnnotationEntry.*), fresh(rsl.PropagationEntry.*), fresh(elems Hash), fresh(elems *rsl.AnnotationEntry), fresh(elems rsl.GetLatestReferenceUpdaterEntryOption), fresh(rsl.GetLatestReferenceUpdaterEntryOptions.*), fresh(elems verifyGitObjectAndAttestationsOption), fresh(elems rsl.ReferenceUpdaterEntry), fresh(map map[string][]*rsl.AnnotationEntry), fresh(elems *rsl.ReferenceEntry)
 //@   ensures tipIsLatestTarget: err == nil ==> old(refSet[rsl.Ref]) && old(hasRefEntry(refTip[rsl.Ref], target)) && tip == pTarget(cmsg(old(latestFor(target))))
 //@   ensures fromEntryVerified: err == nil ==> rangeVerified(entryID, old(latestFor(target)), target)
 
@@ -622,21 +622,21 @@ package policy
 //@   trusted
 //@   assigns ghost faults
 //@   ensures err == nil ==> notNil(e)
-//@ func [C19,C10] (*PolicyVerifier).verifyMergeable -> (needed, err)
+//@ func [C19] (*PolicyVerifier).verifyMergeable -> (needed, err)
 //@   requires v != nil && v.repo != nil && notNil(v.searcher)
 //@   assigns ghost faults, all(State.verifiersCache), fresh(State.*), fresh(StateMetadata.*), fresh(policyopts.LoadStateOptions.*), fresh(attestations.Attestations.*), fresh(SignatureVerifier.*), fresh(elems *SignatureVerifier), fresh(elems tuf.Principal), fresh(elems tuf.Rule), fresh(map map[string][]*SignatureVerifier), fresh(map map[string]bool), fresh(map map[string]tuf.Principal), fresh(gitinterface.Repository.*), fresh(set.Set[string].contents), fresh(map map[string]struct{}), fresh(elems gitobject.Option), fresh(elems sslibdsse.Verifier), fresh(elems sigstoreverifieropts.Option), fresh(elems string), fresh(verifyGitObjectAndAttestationsOptions.*), fresh(rsl.ReferenceEntry.*), fresh(rsl.AnnotationEntry.*), fresh(rsl.PropagationEntry.*), fresh(elems Hash), fresh(elems *rsl.AnnotationEntry), fresh(elems rsl.GetLatestReferenceUpdaterEntryOption), fresh(rsl.GetLatestReferenceUpdaterEntryOptions.*), fresh(elems verifyGitObjectAndAttestationsOption), fresh(elems rsl.ReferenceUpdaterEntry)
 //@   # the answer is the decision of the branch's namespace in mergeability mode, for no object signature (the
 //@   # recorder's is still to come), against the approvals that name exactly the predicted change
 //@   ensures failureSaysNotNeeded: err != nil ==> !needed
-//@   ensures answerIsTheNamespaceDecision: err == nil ==> (exists pol *State, att *sslibdsse.Envelope :: decided(pol, gitTarget(targetRef), nil, att, true, needed) && (att != nil ==> authNamesChange(att, targetRef, fromID.String(), hexstr(mergeTree(fromID, featureID)))) && (pol.hasFileRule ==> (forall k :: 0 <= k && k < cbLen(featureID, fromID) ==> pathsAccepted(pol, cbAt(featureID, fromID, k)))))
+//@   ensures [C19,C10] answerIsTheNamespaceDecision: err == nil ==> (exists pol *State, att *sslibdsse.Envelope :: decided(pol, gitTarget(targetRef), nil, att, true, needed) && (att != nil ==> authNamesChange(att, targetRef, fromID.String(), hexstr(mergeTree(fromID, featureID)))) && (pol.hasFileRule ==> (forall k :: 0 <= k && k < cbLen(featureID, fromID) ==> pathsAccepted(pol, cbAt(featureID, fromID, k)))))
 //@   loop 1:
 //@     invariant commitsAre: introducedFrom(commitIDs, featureID, fromID) && currentPolicy.hasFileRule
-//@     invariant commitsDone: forall k :: 0 <= k && k <= rangeindex ==> pathsAccepted(currentPolicy, cbAt(featureID, fromID, k))
+//@     invariant [C19,C10] commitsDone: forall k :: 0 <= k && k <= rangeindex ==> pathsAccepted(currentPolicy, cbAt(featureID, fromID, k))
 //@     invariant nsDecided: decided(currentPolicy, gitTarget(targetRef), nil, authorizationAttestation, true, rslEntrySignatureNeededForThreshold) && (authorizationAttestation != nil ==> authNamesChange(authorizationAttestation, targetRef, fromID.String(), hexstr(mergeTree(fromID, featureID))))
 //@   loop 2:
-//@     invariant pathsAre: len(paths) == cpLen(commitID) && (forall q :: 0 <= q && q < len(paths) ==> paths[q] == cpAt(commitID, q))
-//@     invariant pathsDone: forall q :: 0 <= q && q <= rangeindex ==> acceptedNormally(currentPolicy, fileTarget(cpAt(commitID, q)), commitID)
-//@     invariant shortcutEarned: verifiedUsing == "" || verifiedBy(currentPolicy, verifiedUsing, commitID)
+//@     invariant [C01,C10,C19] pathsAre: len(paths) == cpLen(commitID) && (forall q :: 0 <= q && q < len(paths) ==> paths[q] == cpAt(commitID, q))
+//@     invariant [C19,C10] pathsDone: forall q :: 0 <= q && q <= rangeindex ==> acceptedNormally(currentPolicy, fileTarget(cpAt(commitID, q)), commitID)
+//@     invariant [C19,C10] shortcutEarned: verifiedUsing == "" || verifiedBy(currentPolicy, verifiedUsing, commitID)
 
 //@ func [C19] (*PolicyVerifier).VerifyMergeable -> (needed, err)
 //@   requires v != nil && v.repo != nil && notNil(v.searcher)
